@@ -162,6 +162,58 @@ def all_schedules(base0, thorough):
                 if w: return w, n
     return None, n
 
+# ------------------------------------------------------------------ a competitor at every file-system call of __exit__
+def exit_interleave(base0):
+    """uploader A has packed its artifact; at the k-th file-system call inside A's LocalArchiveUploader.__exit__ a competing
+    uploader B publishes the same Build-Id completely (check-then-act windows).  What is present must never be replaced."""
+    from bob.archive import ARTIFACT_SUFFIX, ArtifactExistsError
+    import os as _os
+    names = ['link', 'rename', 'replace', 'unlink', 'chmod']; pnames = ['exists', 'isfile', 'lexists']
+    n = 0; k = 1
+    while k <= 12:
+        base = os.path.join(base0, 'x%d' % k); os.makedirs(base)
+        archdir = os.path.join(base, 'arch'); A = mk_archive(archdir); B = mk_archive(archdir)
+        pa = mk_payload(base, 'A', 3000); pb = mk_payload(base, 'B', 4100)
+        p = art_path(A); count = [0]; seen = [None]; inside = [False]
+        saved = {nm: getattr(_os, nm) for nm in names}; savedp = {nm: getattr(_os.path, nm) for nm in pnames}
+        def step():
+            if not inside[0]: return
+            count[0] += 1
+            if count[0] != k: return
+            inside[0] = False
+            try: upload(B, pb[0], pb[1])
+            finally: inside[0] = True
+            if os.path.exists(p): seen[0] = (os.stat(p).st_ino, hashlib.sha1(open(p, 'rb').read()).hexdigest())
+        def wrap(f):
+            def g(*a, **kw): step(); return f(*a, **kw)
+            return g
+        try:
+            up = A._openUploadFile(BID, ARTIFACT_SUFFIX, False); io_ = up.__enter__()
+            A._pack(io_[0], io_[1], pa[0], pa[1])
+            for nm in names: setattr(_os, nm, wrap(saved[nm]))
+            for nm in pnames: setattr(_os.path, nm, wrap(savedp[nm]))
+            inside[0] = True
+            try: up.__exit__(None, None, None)
+            except (ArtifactExistsError, OSError): pass
+        finally:
+            inside[0] = False
+            for nm in names: setattr(_os, nm, saved[nm])
+            for nm in pnames: setattr(_os.path, nm, savedp[nm])
+        n += 1
+        if not os.path.exists(p): return {'kind': 'all-uploads-lost', 'competitor_at_call': k}, n
+        data = open(p, 'rb').read()
+        try: validate(data)
+        except Exception as e: return {'kind': 'incomplete-artifact-under-the-artifact-name', 'competitor_at_call': k, 'error': repr(e)[:160]}, n
+        cur = (os.stat(p).st_ino, hashlib.sha1(data).hexdigest())
+        if seen[0] is not None and cur != seen[0]:
+            return {'kind': 'present-artifact-was-replaced', 'detail': 'competitor published at file-system call %d of __exit__; the uploader then replaced its artifact' % k, 'competitor_at_call': k}, n
+        left = [x for x in os.listdir(os.path.dirname(p)) if not x.endswith('.tgz')]
+        if left: return {'kind': 'temporary-file-left-behind', 'files': left[:3], 'competitor_at_call': k}, n
+        shutil.rmtree(base, ignore_errors=True)
+        if count[0] < k: break
+        k += 1
+    return None, n
+
 # ------------------------------------------------------------------ crash / error injection
 class Inject(Exception): pass
 
@@ -346,6 +398,8 @@ def replay(rep):
     try:
         w, nsched = all_schedules(os.path.join(base0, 'sched'), thorough); tried += nsched; distinct.add('schedules')
         if w: return {'reproduced': True, 'tried': tried, 'witness': w}
+        w, n = exit_interleave(os.path.join(base0, 'xi')); tried += n; distinct.add('exit-interleave')
+        if w: return {'reproduced': True, 'tried': tried, 'witness': w}
         # mirroring: block size of tarfile's stream reader is 10240; cover one full period in steps, plus the edges
         # (a coarse sweep plus every 4th size around the block boundaries, located with a probe upload)
         step = 16 if thorough else 160
@@ -378,5 +432,5 @@ def replay(rep):
         shutil.rmtree(base0, ignore_errors=True)
     return {'reproduced': False, 'tried': tried, 'distinct': len(distinct),
             'samples': [{'mirror_sizes': [sizes[0], sizes[-1], step]}, {'injection_points': points}, {'api_level_schedules': nsched}, {'race_rounds': rounds}],
-            'bound': '%d mirrored artifact sizes (one tar block period, step %d); %d API-level interleavings of 2-3 uploaders (open/pack/exit, with failing packs); kill/OSError at each of %d upload operations over 12 configurations; %d race rounds with 4-6 uploaders x 6 build-ids x 2 readers' % (len(sizes), step, nsched, points, rounds),
+            'bound': '%d mirrored artifact sizes (one tar block period, step %d); %d API-level interleavings of 2-3 uploaders (open/pack/exit, with failing packs); a competing upload at every file-system call of __exit__; kill/OSError at each of %d upload operations over 12 configurations; %d race rounds with 4-6 uploaders x 6 build-ids x 2 readers' % (len(sizes), step, nsched, points, rounds),
             'detail': 'readers saw nothing or complete artifacts; present artifacts were never replaced; mirrors were byte-identical to their source'}
